@@ -20,16 +20,17 @@ pub fn prop() -> Prop {
          root / field's inner named type / type condition / parent); every Field.definition equals \
          schema.type_field(parent, name) and agrees with the reference schema's field (type, argument names), \
          meta-fields included. For documents that apollo validates: every spread resolves, the spread graph is acyclic \
-         (own DFS), used variables are defined, composite <=> has sub-selection, and root_fields / all_fields yield \
-         exactly the multiset of field nodes (by address) of the reachable closure entering each named fragment once. \
+         (own DFS), used variables are defined, composite <=> has sub-selection, and Operation::root_fields / all_fields \
+         (and SelectionSet::root_fields / all_fields of every fragment definition) yield exactly the multiset of field \
+         nodes (by address) of the reachable closure entering each named fragment once. \
          Non-trivial: the document has a fragment spread or an inline fragment without type condition; distinct by texts.",
     )
     .random("pairs", check, |t| if t == Tier::Quick { 60_000 } else { 1_200_000 }, |t| if t == Tier::Quick { 700 } else { 1000 })
     .text(check_text)
     .case_timeout(120)
     .assumptions(&[
-        "schemas come from gen::schema (valid); pairs whose schema apollo rejects are skipped",
-        "validity guarantees are checked on documents apollo itself accepts (including those accepted through the C17 known findings, none of which concerns spreads, cycles, variable definedness or leaf/composite selections)",
+        "schemas come from gen::schema, two in three extended by the gen::opfixture definitions (valid); pairs whose schema apollo rejects are skipped",
+        "validity guarantees are checked on documents apollo itself accepts (ExecutableDocument::validate is Ok)",
     ])
 }
 
